@@ -16,6 +16,7 @@ Requests:
 * `run P | W | I`    → `m g s | M-items | S-glyphs` : `m` = I equals M's items, `g` = glyphs of I
                         equal `interp`, `s` = originals of I spell W; (`g = 2`: S out of fuel)
 * `runs P | W | I | W | I …` → one `mgs` triple (as a 3-digit word) per word
+* `runn`, `runsn`      → the same for `RunOptions { disable_left_boundary: true }` (`runNoLB`, `seqNoLB`)
 -/
 open C05 Proto
 
@@ -240,9 +241,14 @@ def handleTab (p : Program) : String :=
     | none => false)).length
   s!"{showInts body.flatten} | {showInts sv} | {showInts kn.flatten} | {ph}"
 
-def verdict (p : Program) (c : Cache) (w : List Nat) (items : List Item) : Int × List Item × Option (List Glyph) :=
-  let m := runCompiled c.tbl p.rb w
-  let s := interp p (runFuel c.k c.acyclic w) (seqOf p w)
+/-- `runNoLB` over the cached table. -/
+def runNoLBc (c : Cache) (p : Program) : List Nat → List Item
+  | [] => []
+  | x :: w => goL c.tbl p.rb w (some x) true none
+
+def verdict (lb : Bool) (p : Program) (c : Cache) (w : List Nat) (items : List Item) : Int × List Item × Option (List Glyph) :=
+  let m := if lb then runCompiled c.tbl p.rb w else runNoLBc c p w
+  let s := interp p (runFuel c.k c.acyclic w) (if lb then seqOf p w else seqNoLB p w)
   let mOk := b2i (m == items)
   let gOk : Int := match s with | none => 2 | some g => b2i (g == glyphs items)
   let sOk := b2i (originals items == w)
@@ -257,30 +263,24 @@ def decWI (a b : List String) : Option (List Nat × List Item) := do
     if rest.isEmpty && w.2.isEmpty then pure (w.1.map Int.toNat, items) else none
   | [] => none
 
-def handleRuns (p : Program) : List (List String) → List String
+def handleRuns (lb : Bool) (p : Program) : List (List String) → List String
   | a :: b :: t =>
     let c := mkCache p
     let rec go : List (List String) → List String
       | a :: b :: t =>
         (match decWI a b with
-         | some (w, items) => toString (verdict p c w items).1
+         | some (w, items) => toString (verdict lb p c w items).1
          | none => "bad") :: go t
       | _ => []
     go (a :: b :: t)
   | _ => []
 
-def handle (line : String) : String :=
-  match words line with
-  | "tab" :: ws =>
-    match ints? ws >>= decProg with
-    | some (p, []) => handleTab p
-    | _ => "bad-request"
-  | "run" :: ws =>
+def handleRun (lb : Bool) (ws : List String) : String :=
     match splitBar ws with
     | [pw, a, b] =>
       match ints? pw >>= decProg, decWI a b with
       | some (p, []), some (w, items) =>
-        let v := verdict p (mkCache p) w items
+        let v := verdict lb p (mkCache p) w items
         let m := v.1 / 100; let g := v.1 / 10 % 10; let s := v.1 % 10
         let sg := match v.2.2 with
           | none => "none"
@@ -288,13 +288,25 @@ def handle (line : String) : String :=
         s!"{m} {g} {s} | {showInts (encItems v.2.1)} | {sg}"
       | _, _ => "bad-request"
     | _ => "bad-request"
-  | "runs" :: ws =>
+
+def handleRunsReq (lb : Bool) (ws : List String) : String :=
     match splitBar ws with
     | pw :: rest =>
       match ints? pw >>= decProg with
-      | some (p, []) => " ".intercalate (handleRuns p rest)
+      | some (p, []) => " ".intercalate (handleRuns lb p rest)
       | _ => "bad-request"
     | _ => "bad-request"
+
+def handle (line : String) : String :=
+  match words line with
+  | "tab" :: ws =>
+    match ints? ws >>= decProg with
+    | some (p, []) => handleTab p
+    | _ => "bad-request"
+  | "run" :: ws => handleRun true ws
+  | "runn" :: ws => handleRun false ws
+  | "runs" :: ws => handleRunsReq true ws
+  | "runsn" :: ws => handleRunsReq false ws
   | _ => "bad-request"
 
 end DrvC05
